@@ -110,6 +110,16 @@ func (r *Report) modelInputs(e *Enc, ob *Obligation) (map[string]interface{}, ma
 	}
 	out, ok := try(small)
 	if !ok {
+		var medium []string
+		for _, in := range e.inputs {
+			if in.Kind == "bytes" || in.Kind == "string" {
+				medium = append(medium, fmt.Sprintf("(assert (bvule %s #x0000000000000028))", in.Len), fmt.Sprintf("(assert (bvule %s #x0000000000001000))", in.Cap),
+					fmt.Sprintf("(assert (bvule %s #x0000000000001000))", in.Off))
+			}
+		}
+		out, ok = try(medium)
+	}
+	if !ok {
 		out, ok = try(nil)
 		if !ok {
 			return nil, nil, nil
@@ -379,6 +389,22 @@ func (r *Report) replay(path string, e *Enc, ob *Obligation) bool {
 	json.Unmarshal(data, &rf)
 	defer func() { writeJSON(path, rf) }()
 
+	if ob.Kind == "rel" && strings.Contains(ob.Name, "/rel.") {
+		inputs, mb, scal := r.relModel(e, ob)
+		if inputs == nil {
+			rf.Note = "no model could be read back from the solver"
+			return false
+		}
+		rf.Inputs = inputs
+		which := ob.Name[strings.Index(ob.Name, "rel.")+4 : strings.Index(ob.Name, "/")]
+		src := relHarness(which, mb, scal)
+		rf.Harness = src
+		rf.Package = repoModule + "/syncer"
+		log, confirmed := runHarness(r.Work, e.L.RepoDir, rf.Package, src, sanitize(ob.Name))
+		rf.ReplayLog = trunc(log, 3000)
+		rf.Confirmed = confirmed
+		return confirmed
+	}
 	if ob.Kind != "post" && ob.Kind != "safety" {
 		rf.Note = "no direct-call replay for obligation kind " + ob.Kind + " (internal program point)"
 		return false
